@@ -1758,6 +1758,30 @@ def o_bbox(mir, tier, seed):
     return dict(theory='Real (linear); coordinates arbitrary; Rect::new uninterpreted', functions=['geo_types::private_utils::get_bounding_rect', 'get_min_max', 'BoundingRect for GeometryCollection', 'bounding_rect_merge', 'utils::partial_min / partial_max'], paths=npaths, status=st, info=info, model=None, replay=('bounding_rect', ''))
 
 
+# ---- C11: the homogeneous-coordinates formula of the proper intersection point
+
+@obligation('C11', 'raw_line_intersection_real', 'raw_line_intersection over the reals, for ANY two segments whose supporting lines are not parallel: the returned point lies on BOTH supporting lines (both cross products vanish), i.e. the conditioned homogeneous-coordinates computation is algebraically the exact intersection point, whatever the conditioning midpoint (floating-point rounding, NaN / infinity handling outside)')
+def o_rawint(mir, tier, seed):
+    fn = mir.find('geo', r'raw_line_intersection')
+    T = RealTheory()
+    p0, p1, q0, q1 = coord(T, 'p0'), coord(T, 'p1'), coord(T, 'q0'), coord(T, 'q1')
+    ip = Interp(mir, T, EXTRA)
+    ip.max_steps = 200000
+    outs = ip.call_fn(fn, [[list(p0), list(p1)], [list(q0), list(q1)]], z3.BoolVal(True))
+    cross = lambda a, b, x: (b[0] - a[0]) * (x[1] - a[1]) - (b[1] - a[1]) * (x[0] - a[0])
+    w = (p1[0] - p0[0]) * (q1[1] - q0[1]) - (p1[1] - p0[1]) * (q1[0] - q0[0])
+    bad = [z3.Not(z3.Or([pc for pc, _ in outs]))]
+    for pc, r in outs:
+        r = deref(r)
+        if not variant_is(r, 'Some'):
+            bad.append(pc)
+            continue
+        x = deref(r.fields[0])
+        bad.append(z3.And(pc, z3.Or(cross(p0, p1, x) != 0, cross(q0, q1, x) != 0)))
+    st, info, model = check_unsat('raw_line_intersection_real', [w != 0, z3.Or(bad)], timeout_s=25)
+    return dict(theory='Real (nonlinear: rational functions); Float::min / max = the real min / max, is_nan / is_infinite = false', functions=['line_intersection::raw_line_intersection'], paths=len(outs), status=st, info=info, model=None, replay=('raw_line_intersection', ''))
+
+
 # ---- C05 kernels
 
 @obligation('C05', 'line_determinant_int', 'for ALL integers: Line::determinant() = start.x*end.y - start.y*end.x (the shoelace term)')
